@@ -10,7 +10,7 @@ from fractions import Fraction
 import numpy as np
 import z3
 
-from pyvc.api import (Interp, Obj, NDArr, cert, conj, eq_arrays, farr, in_set, int_matrix, ints, reals, real_matrix, shell, source,
+from pyvc.api import (Interp, Obj, NDArr, cert, conj, eq_arrays, farr, iarr, in_set, int_matrix, ints, reals, real_matrix, shell, source,
                       model_float)
 from pyvc.values import Unsupported, to_real, z, num_cmp
 
@@ -118,7 +118,7 @@ def build(ctx):
         R = _R_from_model(m)
         t = np.array([model_float(m.get(f"t{i}", 0)) for i in range(3)])
         code = so.encode_symm_int(R, t)
-        d = [int(np.round(x * 12)) for x in t]
+        d = [int(np.round(x * 12)) % 12 for x in t]
         exp = sum(int(R[i][j] + 1) * 3 ** (8 - 3 * i - j) for i in range(3) for j in range(3)) + 19683 * sum(d[i] * 12 ** (2 - i) for i in range(3))
         return {"native_inputs": {"rotation": R.tolist(), "translation": t.tolist()}, "reproduced": int(code) != exp,
                 "observed": {"code": int(code), "expected": exp}}
@@ -305,9 +305,12 @@ def build(ctx):
     xv = reals("x", 3)
     Rr = real_matrix("R", 3, 3)
 
-    def ob_apply():
+    def ob_apply(int_rotation=False):
+        Ri = int_matrix("ri", 3, 3)
+        Rr_ = Ri if int_rotation else Rr
+        sfx = "/int_rotation" if int_rotation else ""
         def thunk(I2, a, kw):
-            op = Obj(SOcls, {"rotation": farr(Rr), "translation": farr(tv)})
+            op = Obj(SOcls, {"rotation": iarr(Ri) if int_rotation else farr(Rr), "translation": farr(tv)})
             p3 = I2.call(I2.getattr(op, "apply"), [farr([xv])])
             p4 = I2.call(I2.getattr(op, "apply"), [farr([xv + [1]])])
             pc_ = I2.call(I2.getattr(op, "__call__"), [farr([xv])])
@@ -316,11 +319,11 @@ def build(ctx):
         res = I.explore(thunk)
         for r in res:
             p3, p4, pc_, sz = r.value
-            spec = [sum(Rr[i][j] * xv[j] for j in range(3)) + tv[i] for i in range(3)]
+            spec = [sum(z3.ToReal(Rr_[i][j]) * xv[j] if int_rotation else Rr_[i][j] * xv[j] for j in range(3)) + tv[i] for i in range(3)]
 
             def replay(m):
                 so = _native()
-                R = np.array([[model_float(m.get(f"R{i}{j}", 0)) for j in range(3)] for i in range(3)])
+                R = np.array([[int(m.get(f"ri{i}{j}", 0)) for j in range(3)] for i in range(3)]) if int_rotation else np.array([[model_float(m.get(f"R{i}{j}", 0)) for j in range(3)] for i in range(3)])
                 t = np.array([model_float(m.get(f"t{i}", 0)) for i in range(3)])
                 x = np.array([[model_float(m.get(f"x{i}", 0)) for i in range(3)]])
                 op = so.SymmetryOperation(R, t)
@@ -331,17 +334,18 @@ def build(ctx):
                 bad = not (np.allclose(a3, exp) and np.allclose(a4[:, :3], exp) and a3.shape == (1, 3))
                 return {"native_inputs": {"R": R.tolist(), "t": t.tolist(), "x": x.tolist()}, "reproduced": bad,
                         "observed": {"apply3": a3.tolist(), "apply4": a4.tolist(), "expected": exp.tolist()}}
-            ctx.prove("symmetry_operation.SymmetryOperation.apply/ensures/affine", r.pc,
+            ctx.prove("symmetry_operation.SymmetryOperation.apply/ensures/affine" + sfx, r.pc,
                       conj([p3.data[0, i] == spec[i] for i in range(3)]), clause="apply(x) = R x + t for a row vector x", replay=replay, fn=SO("apply"))
-            ctx.prove("symmetry_operation.SymmetryOperation.apply/ensures/3_vs_4", r.pc,
+            ctx.prove("symmetry_operation.SymmetryOperation.apply/ensures/3_vs_4" + sfx, r.pc,
                       conj([p4.data[0, i] == p3.data[0, i] for i in range(3)] + [p4.data[0, 3] == 1]),
                       clause="first three components of apply((x,1)) equal apply(x); the fourth stays 1", replay=replay, fn=SO("apply"))
-            ctx.prove("symmetry_operation.SymmetryOperation.__call__/ensures/apply", r.pc, z(eq_arrays(pc_, p3)), clause="op(x) == op.apply(x)",
+            ctx.prove("symmetry_operation.SymmetryOperation.__call__/ensures/apply" + sfx, r.pc, z(eq_arrays(pc_, p3)), clause="op(x) == op.apply(x)",
                       fn=SO("apply"))
-            want = [[Rr[i][j] for j in range(3)] + [tv[i]] for i in range(3)] + [[0, 0, 0, 1]]
-            ctx.prove("symmetry_operation.SymmetryOperation.seitz_matrix/ensures/layout", r.pc, z(eq_arrays(sz, farr(want))),
+            want = [[Rr_[i][j] for j in range(3)] + [tv[i]] for i in range(3)] + [[0, 0, 0, 1]]
+            ctx.prove("symmetry_operation.SymmetryOperation.seitz_matrix/ensures/layout" + sfx, r.pc, z(eq_arrays(sz, farr(want))),
                       clause="seitz = [[R, t],[0 0 0 1]]", replay=replay, fn=SO("seitz_matrix"))
     ctx.attempt("symmetry_operation.SymmetryOperation.apply/ensures/affine", ob_apply)
+    ctx.attempt("symmetry_operation.SymmetryOperation.apply/ensures/affine/int_rotation", lambda: ob_apply(True))
 
     # inverted / __add__ / __sub__
     def ob_arith():
